@@ -408,10 +408,14 @@ def errors(g, thorough, count):
         ("mov ax, 1", "mov ds, al"), ("mov ax, 1", "mov es, bh"), ("mov ax, 1", "mov al, ds"), ("mov ax, 1", "mov byte [bx], ds"), ("mov ax, 1", "xchg ax, bl"),
         ("mov ax, 1", "add al, bx"), ("mov ax, 1", "push ah"), ("mov ax, 1", "pop bl"), ("mov ax, 1", "lea al, word [bx]"), ("mov ax, 1", "mul 5"),
         ("mov ax, 1", "shl ax, bl"), ("mov ax, 1", "cmp byte [bx], byte [si]"), ("mov ax, 1", "mov cs, 5"), ("mov ax, 1", "mov ds, 5"), ("inc bx", "def g {\nnop\n}"), ("mov ax, 1", "rep cmps byte"), ("mov ax, 1", "repe movs byte"),
+        # a jump whose target is a procedure name (not a label), reached at run time
+        ("jnz lab", "jnz f"), ("jnz lab", "jmp f"), ("jnz lab", "mov cx, 2\nloop f"), ("jnz lab", "mov cx, 0\njcxz f"), ("jnz lab", "JMP f"),
+        ("call f", "call f\njmp late"), ("call f", "call start"), ("call f", "call v"),
     ]
     out = [base]
     for a, b in muts:
         out.append(base.replace(a, b, 1))
+    out.append(base.replace("call f", "jmp late", 1) + "def late {\ninc dx\n}\n")
     for a, n_ in [(1048575, 0), (1048575, 1), (0xFFFF0, 15), (0xFFFF0, 16), (0, 1048575), (0, 1048576)]:
         out.append(base.replace("mov ax, 1", "print mem %d : %d" % (a, n_), 1))
     # boundary values of the constant ranges (accepted / rejected by one)
@@ -672,6 +676,40 @@ def cli_cases(g, group, thorough):
         for special in ["", "\n", ";", "start:", "start: hlt", "\"", "[[[[", "9" * 5000, "start:\nmov ax, " + "9" * 100000 + "\n", "a:" * 2000,
                         "start:\n" + "nop\n" * 5000, "db \"" + "x" * 70000 + "\"\nstart:\n"]:
             out.append(("-", special, ""))
+    elif group == "strings":
+        # C07 through the real run loop: every string mnemonic x width x DF x prefix, driven by the binary's own
+        # REPEAT handling to completion; conditional repeats over data that stops them early, late or never
+        for _ in range(n(250, 2500)):
+            nb = r.randrange(4, 24)
+            a = [r.choice("AAABXYabz09 ") for _ in range(nb)]
+            b = list(a)
+            for _k in range(r.randrange(0, 3)):
+                b[r.randrange(nb)] = r.choice("ABXq")
+            lines = ["set 0", 'sa: db "' + "".join(a) + '"', 'sb: db "' + "".join(b) + '"', "sc: db [%d]" % (nb + 4), "start:"]
+            es = r.choice([0, 0, 0, 1, 2])
+            if es:
+                lines += ["mov ax, %d" % es, "mov es, ax"]
+            steps = r.randrange(1, 4)
+            for _s in range(steps):
+                op = r.choice(["movs", "lods", "stos", "cmps", "scas"])
+                wd = r.choice(["byte", "word"])
+                pre = r.choice(["", "", "rep ", "rep "] if op in ("movs", "lods", "stos") else ["", "repe ", "repz ", "repne ", "repnz ", "REPE ", "REPNZ "])
+                df = r.random() < 0.3
+                cx = r.choice([0, 1, 2, 3, nb // 2, nb, nb + 2, r.randrange(0, nb + 4)])
+                if wd == "word":
+                    cx = cx // 2
+                src_l, dst_l = r.choice([("sa", "sb"), ("sb", "sa"), ("sa", "sc"), ("sa", "sa")])
+                off = (nb - (2 if wd == "word" else 1)) if df else 0
+                lines += [r.choice(["std", "STD"]) if df else r.choice(["cld", "CLD"]),
+                          "mov si, offset %s" % src_l] + (["add si, %d" % off] if off else []) + \
+                         ["mov di, offset %s" % dst_l] + (["add di, %d" % off] if off else []) + \
+                         ["mov cx, %d" % cx, "mov ax, %d" % r.choice([0x41, 0x42, 0x4141, 0x4241, r.randrange(0x10000)]),
+                          (pre + op + " " + wd).upper() if r.random() < 0.2 else pre + op + " " + wd,
+                          "print reg", "print flags"]
+            lines += ["print mem 0 : %d" % (3 * nb + 8)] + (["print mem %d : %d" % (es * 16, 3 * nb + 8)] if es else [])
+            flag = r.choice(["-", "-", "-", "i"])
+            stdin = "" if flag == "-" else "n\n" * 400
+            out.append((flag, "\n".join(lines) + "\n", stdin))
     else:
         sys.exit("unknown cli group " + group)
     return out
